@@ -1,3 +1,16 @@
 import NimaVerif.Props.C06
-open Nima.C06
-#print axioms formatTrivia_nil
+#print axioms Nima.C06.fromGap_separator
+#print axioms Nima.C06.fromGap_separator_idem
+#print axioms Nima.C06.separator_second_pass
+#print axioms Nima.C06.fromGap_wellformed
+#print axioms Nima.C06.gapText_emptyLine
+#print axioms Nima.C06.gapText_linebreak
+#print axioms Nima.C06.gapText_nil
+#print axioms Nima.C06.appendGapTrivia_idem
+#print axioms Nima.C06.appendGapTrivia_inline_gap
+#print axioms Nima.C06.gapText_fixed_point
+#print axioms Nima.C06.before_list_rendering
+#print axioms Nima.C06.block_comment_fixed_point
+#print axioms Nima.C06.line_comment_fixed_point
+#print axioms Nima.C06.cex_inline_multiline_block_drift
+#print axioms Nima.C06.inline_block_fixed_point_partial
